@@ -165,7 +165,7 @@ MOD_FIXED = [
     {"reactions": [(["H", "O"], ["OH"])], "required": [],
      "ode_modifier": {"H": {"factors": ["1.5 * k[0]"], "reactants": [["H", "O"]]}}},
     {"reactions": [(["H", "O"], ["OH"])], "required": ["He"],
-     "ode_modifier": {"OH": {"factors": ["zeta", "-1.0"], "reactants": [["H", "H", "O"], ["He", "He"]]}}},
+     "ode_modifier": {"OH": {"factors": ["zeta", "-1.0 + nH"], "reactants": [["H", "H", "O"], ["He", "He"]]}}},
     {"reactions": [(["H", "H"], ["H2"]), (["H", "H", "H"], ["H2", "H"])], "required": []},
     {"reactions": [(["H2", "CO"], ["H", "H", "CO"]), (["CO", "H"], ["CO", "H"])], "required": []},
 ]
